@@ -449,6 +449,29 @@ func (tu *ToUnicodeFile) Embed(rm *pdf.EmbedHelper) (pdf.Native, error) {
 	return ref, nil
 }
 
+// toUnicodeRangeChunks splits the ranges into blocks of at most chunkSize
+// entries.  A block is cut short where reading it would need more than
+// maxOperands entries on the PostScript operand stack: every entry of a block
+// stays on the stack until endbfrange, and an array of values is collected
+// on the stack before it is turned into one operand.
+func toUnicodeRangeChunks(x []ToUnicodeRange) [][]ToUnicodeRange {
+	const maxOperands = 480 // interpreters guarantee 500
+
+	var res [][]ToUnicodeRange
+	start := 0
+	for i, r := range x {
+		n := i - start
+		if n > 0 && (n >= chunkSize || 3*n+3+len(r.Values) > maxOperands) {
+			res = append(res, x[start:i])
+			start = i
+		}
+	}
+	if start < len(x) {
+		res = append(res, x[start:])
+	}
+	return res
+}
+
 func toString(obj postscript.Object) (string, error) {
 	dst, ok := obj.(postscript.String)
 	if !ok || len(dst)%2 != 0 {
@@ -489,7 +512,7 @@ var toUnicodeTmplNew = template.Must(template.New("cmap").Funcs(template.FuncMap
 		val := hexString(s.Value)
 		return fmt.Sprintf("<%x> %s", s.Code, val)
 	},
-	"RangeChunks": chunks[ToUnicodeRange],
+	"RangeChunks": toUnicodeRangeChunks,
 	"Range": func(r ToUnicodeRange) string {
 		if len(r.Values) == 1 {
 			return fmt.Sprintf("<%x> <%x> %s", r.First, r.Last, hexString(r.Values[0]))
